@@ -366,11 +366,11 @@ theorem readElems_enc (cfg : Cfg) (T : List Lbl) (hT : T.length < nullIdx) (hA :
     (es : List (Lbl × Value)) → (fuel : Nat) → (t : List Lbl) → (tail : Bytes) → (pos : Nat) → (R : List Lbl) →
     (F : List Nat) → (sup' : Supply) → depthE es < fuel → (encItems t (elemCalls t es).2).1 <+: T → WFElems cfg t es →
     R.length = T.length → (encItems t (elemCalls t es).2).2.length < 2 ^ 63 →
-    readElems cfg fuel es.length (supplyOfElems es ++ sup') ⟨(encItems t (elemCalls t es).2).2 ++ tail, pos, true, R, F⟩ =
+    readElemsWith (readValue cfg fuel) es.length (supplyOfElems es ++ sup') ⟨(encItems t (elemCalls t es).2).2 ++ tail, pos, true, R, F⟩ =
       .ok (rawElems T es, sup') ⟨tail, pos + (encItems t (elemCalls t es).2).2.length, true,
         (regLabels (elemCalls t es).2).foldl (setL T) R, newFix T (elemCalls t es).2 ++ F⟩
   | [], fuel, t, tail, pos, R, F, sup', _, _, _, _, _ => by
-    simp [readElems, elemCalls, encItems, supplyOfElems, rawElems, regLabels, newFix]
+    simp [readElemsWith, elemCalls, encItems, supplyOfElems, rawElems, regLabels, newFix]
   | (l, v) :: es, fuel, t, tail, pos, R, F, sup', hd, hp, hw, hR, hl => by
     simp only [WFElems] at hw
     simp only [depthE] at hd
@@ -381,7 +381,7 @@ theorem readElems_enc (cfg : Cfg) (T : List Lbl) (hT : T.length < nullIdx) (hA :
     simp only [List.length_append] at hl
     simp only [elemCalls, encItems_append, valCalls_table, List.length_cons, supplyOfElems, List.cons_append,
       List.append_assoc, rawElems, regLabels_append, newFix_append, List.foldl_append]
-    rw [readElems]
+    rw [readElemsWith]
     simp only [Supply.next]
     rw [readValue_enc cfg T hT hA v fuel l t _ pos R F (supplyOfElems es ++ sup') (by omega) hp1 hw.1 hR (by omega)]
     simp only [Res.bind]
